@@ -102,6 +102,8 @@ pub struct Obs {
     pub proxies: Vec<String>,
     pub port: u16,
     pub cookies: Vec<(Vec<u8>, Vec<u8>)>,
+    /// looking a name up through the string API in another case (`get("HOST")`, `get_all("HOST")`) finds the same values
+    pub lookup_ok: bool,
 }
 
 pub fn observe(r: &Request) -> Obs {
@@ -116,7 +118,14 @@ pub fn observe(r: &Request) -> Obs {
             h.insert(key, vals);
         }
     }
+    let mut lookup_ok = true;
+    for (k, vals) in &h {
+        let upper = String::from_utf8_lossy(&k.to_ascii_uppercase()).into_owned();
+        let all: Vec<Vec<u8>> = r.headers.get_all(upper.as_str()).into_iter().map(|s| s.as_bytes().to_vec()).collect();
+        if &all != vals || r.headers.get(upper.as_str()).map(|s| s.as_bytes()) != vals.first().map(|v| &v[..]) { lookup_ok = false; }
+    }
     Obs {
+        lookup_ok,
         m: r.method.to_string().into_bytes(),
         p: r.uri.clone().into_bytes(),
         q: r.query.clone().into_bytes(),
@@ -146,6 +155,7 @@ pub fn diff(a: &Obs, b: &Obs) -> Vec<&'static str> {
     if a.proxies != b.proxies { d.push("proxies"); }
     if a.port != b.port { d.push("port"); }
     if a.cookies != b.cookies { d.push("cookies"); }
+    if a.lookup_ok != b.lookup_ok { d.push("case-insensitive-lookup"); }
     d
 }
 
@@ -169,6 +179,7 @@ fn exp_from_json(e: &Value) -> Obs {
         h.entry(n).or_default().push(v);
     }
     Obs {
+        lookup_ok: true,
         m: s("m"), p: s("p"), q: s("q"), v: s("v"),
         nh: hs.len(), h,
         has_body: e["hasBody"].as_bool().expect("hasBody"),
@@ -531,8 +542,8 @@ pub fn random(parser: &dyn Parser, n: usize, max_body: usize) {
                 Err(e) => { observed.push(None); errors.push(format!("{}: {}", pl.name, e)); }
             }
         }
-        // identical observations under every plan (plain structural equality, has_body included)
-        let agree = observed.iter().all(|o| o.is_some() && *o == observed[0]);
+        // identical observations under every plan (plain structural equality, has_body included), names found in any case
+        let agree = observed.iter().all(|o| o.is_some() && *o == observed[0]) && observed[0].as_ref().map_or(false, |o| o.lookup_ok);
         // the logged observation is the one from the small random chunks
         let got = observed[1].clone();
         let mut rt: Option<Obs> = None;
